@@ -352,5 +352,7 @@ class Registry(asset.Registry, alias='posix'):
                 raise asset.Level.Invalid(f'State {sid} not staged')
             target = self._path.state(sid, project, release, generation)
             source.rename(target)
-        with path.open('wb') as tagfile:
+        staged = path.with_suffix('.tmp')  # a generation is listed once its tag exists - never expose a partial tag
+        with staged.open('wb') as tagfile:
             tagfile.write(tag.dumps())
+        staged.rename(path)
